@@ -11,7 +11,7 @@
     termination of the task bodies (a body that never returns keeps its worker, and stop(), for
     ever: outside the statement).  The implementation-side oracle checks that stop() returns under
     every explored schedule (the scheduler detects deadlock exactly). *)
-From JR Require Import Pool PoolBase PoolInvDefs PoolInvE PoolInvH PoolSafety PoolLifecycle PoolGrowth PoolProgress.
+From JR Require Import Pool PoolBase PoolInvDefs PoolInvE PoolInvH PoolSafety PoolLifecycle PoolGrowth PoolProgress PoolRank.
 
 (** the two join monitors never fire: join() never returned True while a task enqueued before
     the call was neither done nor dropped by stop(); it never returned False unless it was
@@ -106,3 +106,33 @@ Theorem C11_join_on_running_pool_not_stuck : forall mx mn progs sched,
   exists u f s', step s u f = Some s'.
 Proof. exact join_on_running_pool_not_stuck. Qed.
 Print Assumptions C11_join_on_running_pool_not_stuck.
+
+(** "every worker thread terminates on its own": once stop() has set the flag, every step of a worker strictly
+    decreases its rank (its distance to the exit, at most 22), so it takes at most 22 more steps of its own;
+    and no step of any other thread increases the rank of a created worker.  With C11_thread_progress_worker
+    (it can always step, or the holder of what it waits for can) only fair scheduling is left. *)
+Theorem C11_worker_exits_in_bounded_steps : forall fs s w s',
+  stopped s = true -> wsteps s w fs = Some s' ->
+  (length fs + wrank (wpc (ws s' w)) <= wrank (wpc (ws s w)))%nat /\ (wrank (wpc (ws s w)) <= 22)%nat.
+Proof. intros fs s w s' Hst H. split; [eapply worker_exits_within_rank; eassumption | apply wrank_le]. Qed.
+Print Assumptions C11_worker_exits_in_bounded_steps.
+
+Theorem C11_worker_rank_monotone : forall mx mn progs sched t f s' w,
+  valid_cfg mx mn ->
+  let s := run sched (init mx mn progs) in
+  stopped s = true -> step s t f = Some s' -> wpc (ws s w) <> WNone ->
+  (wrank (wpc (ws s' w)) <= wrank (wpc (ws s w)))%nat.
+Proof.
+  intros mx mn progs sched t f s' w Hv s Hst H Hn.
+  eapply worker_rank_monotone; try eassumption. apply (i_created _ (reachable_inv1 mx mn progs sched Hv)).
+Qed.
+Print Assumptions C11_worker_rank_monotone.
+
+(** stop() itself: every one of its own steps strictly decreases (phase, position in the phase) in the
+    lexicographic order, except the edge that goes back to poll the same worker again after thread.join(3)
+    returned; a worker that has exited is dropped from the list at the next poll *)
+Theorem C11_stop_steps_decrease : forall s f s',
+  stop_region (ctl s) = true \/ ctl s = CSPSet -> step s (TC 0%nat) f = Some s' ->
+  lex_lt (crank s') (crank s) \/ (exists ths, ctl s = CSPAlive2 ths /\ ctl s' = CSPAlive ths).
+Proof. exact stop_step_decreases. Qed.
+Print Assumptions C11_stop_steps_decrease.
